@@ -51,18 +51,9 @@ def c02cand (args res : List String) : Verdict :=
         let (aS, argS) := match rest.splitOn ":" with
           | [a, b] => (a, b)
           | _ => (rest, "")
-        if out = "PANIC" then some (vProp "v-manager-panic" s!"op-{ch}") else
-        if out = "HANG" then some (vProp "v-manager-hangs" s!"op-{ch}") else
-        match parseCandSnap out with
-        | none => some (vBad out)
-        | some snap =>
         let s := c.x.m
-        let prevCands := (prev.map (·.cands)).getD []
-        let prevInterested := (prev.map (·.interested)).getD 0
-        let implConnected (a : Nat) : Bool := snap.peers.any (·.addr = a)
-        let implComplete : Bool := decide (stillMissing snap.st = 0)
-        let seen' := seen ++ (snap.peers.map (·.addr))
-        -- enabledness (the property's quantifier) and the event
+        -- enabledness (the property's quantifier): an event no connection task can emit in this state is not a history
+        -- of the client (a shrinker or generator slip), whatever the implementation does with it
         let a? := aS.toNat?
         let p := a?.bind (findPeer s ·)
         let enabled : Bool := match ch with
@@ -76,6 +67,16 @@ def c02cand (args res : List String) : Verdict :=
           | 'b' => p.isSome && (bitsOfString argS).length = np
           | _ => p.isSome
         if !enabled then some { text := s!"unrealizable-history op {op}", tag := "unrealizable" } else
+        if out = "PANIC" then some (vProp "v-manager-panic" s!"op-{ch}") else
+        if out = "HANG" then some (vProp "v-manager-hangs" s!"op-{ch}") else
+        match parseCandSnap out with
+        | none => some (vBad out)
+        | some snap =>
+        let prevCands := (prev.map (·.cands)).getD []
+        let prevInterested := (prev.map (·.interested)).getD 0
+        let implConnected (a : Nat) : Bool := snap.peers.any (·.addr = a)
+        let implComplete : Bool := decide (stillMissing snap.st = 0)
+        let seen' := seen ++ (snap.peers.map (·.addr))
         let a := a?.getD 0
         let target := (findPeer s a).map (·.pieces) |>.getD []
         let allPieces := s.peers.map (·.pieces)
